@@ -44,6 +44,11 @@ type Case struct {
 	// became of it); AfterReqs are requests built from their instances.
 	After     []rt.Reg `json:"registered_afterwards,omitempty"`
 	AfterReqs []rt.Req `json:"requests_afterwards,omitempty"`
+	// Last are registrations that are ill-formed whatever was registered before
+	// (grammar, unknown method, duplicate bind, inner optional, expression that
+	// does not compile), attempted at the very end; every request is then
+	// served once more.
+	Last []rt.Reg `json:"ill_formed_at_the_end,omitempty"`
 }
 
 // candidateMethods interprets the method field of the candidate: the known
@@ -316,6 +321,40 @@ func checkCase(c Case) evid.Outcome {
 			}
 		}
 		out.Classes = append(out.Classes, "registered-afterwards")
+	}
+
+	// ---- further ill-formed registrations at the very end: each is refused, and
+	// takes nothing away
+	if len(c.Last) > 0 && verdict != model.Either {
+		definite := append([]rt.Reg(nil), c.Prefix...)
+		if verdict == model.MustAccept {
+			definite = append([]rt.Reg(nil), all...)
+		}
+		definite = append(definite, c.After...)
+		for j, g := range c.Last {
+			if v, w := verdictFor(Case{Final: g}); v != model.MustReject {
+				panic("harness: " + g.M + " " + g.R + " is not ill-formed on its own: " + w)
+			}
+			if err := app.Register(len(c.Prefix)+1+len(c.After)+j, g); err == nil {
+				return evid.Fail("accepted-invalid-late", "the ill-formed registration %s %q was accepted at the end of the history %s + %s %q (%s) + %s", g.M, g.R, show(c.Prefix), c.Final.M, c.Final.R, verdict, show(c.After))
+			}
+		}
+		for _, q := range append(append([]rt.Req(nil), c.Reqs...), c.AfterReqs...) {
+			hit := app.Serve(q)
+			if hit.Panic != nil {
+				return evid.Fail("request-panic", "request %s %q panicked after the refused registrations %s at the end of the history %s + %s %q: %v", q.M, q.P, show(c.Last), show(c.Prefix), c.Final.M, c.Final.R, hit.Panic)
+			}
+			if hit.Handler >= len(c.Prefix)+1+len(c.After) {
+				return evid.Fail("rejected-route-serves", "%s %q was served by the handler of a refused registration (%s)", q.M, q.P, show(c.Last))
+			}
+			if hit.Handler < 0 {
+				if da := model.Admitting(rt.Compiled(definite, q.M), q.P, nil, nil); len(da) > 0 {
+					return evid.Fail("route-lost-after-late-rejection", "%s %q is admitted by %q, but nothing serves it after the refused registrations %s (history %s, candidate %s %q (%s), then %s)", q.M, q.P, da[0].Route.Canon, show(c.Last), show(c.Prefix), c.Final.M, c.Final.R, verdict, show(c.After))
+				}
+			}
+		}
+		out.NonTrivial = true
+		out.Classes = append(out.Classes, "ill-formed-at-the-end")
 	}
 
 	switch {
@@ -836,6 +875,22 @@ func genCase(t *rapid.T) Case {
 		// the earlier routes must still be there as well
 		for _, p := range prefix {
 			c.AfterReqs = append(c.AfterReqs, rt.Req{M: model.ExpandMethod(p.M)[0], P: "/" + strings.Join(gen.Instance(t, rt.Deriv(p.R), false), "/")})
+		}
+	}
+	if rapid.IntRange(0, 2).Draw(t, "last") == 0 {
+		bad := []rt.Reg{{M: "GET", R: "/{a}/{a}"}, {M: "GET", R: "/l1/?l2/l3"}, {M: "POST", R: "/{a: /[/}"}, {M: "GET", R: "l4"}, {M: "FETCH", R: "/l5"},
+			{M: "*", R: "/{a}-{a}"}, {M: "GET", R: "/l6/{a: /(/}"}, {M: "*", R: "/l7/{b"}, {M: "PUT", R: "/?l8/l9"}, {M: "GET", R: "/{a: /x/, a: /y/}"}, {M: "GET", R: ""}}
+		for i, k := 0, rapid.IntRange(1, 2).Draw(t, "nlast"); i < k; i++ {
+			g := bad[rapid.IntRange(0, len(bad)-1).Draw(t, "lastk")]
+			if len(prefix) > 0 && rapid.IntRange(0, 2).Draw(t, "lastunder") == 0 {
+				// the same defect below the path of a registered route
+				if p := prefix[rapid.IntRange(0, len(prefix)-1).Draw(t, "lastp")]; strings.HasPrefix(g.R, "/") && !strings.Contains(p.R, "?") && !strings.Contains(p.R, "**") && !strings.Contains(p.R, "{a") {
+					g.R = strings.TrimSuffix(p.R, "/") + g.R
+				}
+			}
+			if v, _ := verdictFor(Case{Final: g}); v == model.MustReject {
+				c.Last = append(c.Last, g)
+			}
 		}
 	}
 	return c
